@@ -29,10 +29,10 @@ N_SMALL = {"nth": [-3, -2, -1, 0, 1, 2, 3], "head": [0, 1, 2, 3, 5], "tail": [0,
 SIZES = [2 ** 15 - 1, 2 ** 15, 2 ** 15 + 1, 2 ** 16, 2 ** 16 + 1, 70_000]
 SCOPE = {"quick": "GroupBy.head/tail/nth(keep_input_index=True): (A) keys over {null,a,b}^m, m<=6 exhaustive with an unsorted unique index sort=True, m<=5 also with {ndarray values sort=True, duplicate unsorted index sort=False} x nth n in [-4,7], head/tail n in [0,7] and -1 / -2; "
                   "(B) m<=4 x 17 (value kind, container, index kind) combinations {float with NaN, int64, int32, float32, bool, str, datetime with NaT, tz-aware datetime, categorical; Series, DataFrame of 3 dtypes, dict of arrays, dict of Series, list of arrays, 2-D array; "
-                  "index: range, unsorted, duplicate, string, descending, MultiIndex, DatetimeIndex} x sort on/off (m=4: one of the two per combination) x reduced n (nth [-3,3], head/tail {0,1,2,3,5}); (C) key kinds {float NaN-null, int (3 groups), categorical with unused category, two keys} x sort on/off m<=4, also with keep_input_index=False (values only); "
-                  "(D) kernels _find_nth / find_first_n / find_last_n: codes {-1,0,1}^m m<=5, ngroups=3 (an empty group), every boolean mask (m<=4), code dtypes int64/int32, n in [-6,6] / [0,6]; "
+                  "index: range, unsorted, duplicate, string, descending, MultiIndex, DatetimeIndex} x sort on/off (m=4: one of the two per combination) x reduced n (nth [-3,3], head/tail {0,1,2,3,5}); (C) key kinds {float NaN-null, int (3 groups), categorical with unused category, two keys} x sort on/off m<=4, for Series values also with keep_input_index=False (values only); "
+                  "(D) kernels _find_nth / find_first_n / find_last_n: codes {-1,0,1}^m m<=5, ngroups=3 (an empty group), no mask / every boolean mask (m<=3) / 3 masks (m>=4), code dtypes int64/int32, n in [-6,6] / [0,6]; "
                   "(E) boundary sizes: one group of 2^15-1, 2^15, 2^15+1, 2^16, 2^16+1, 70000 rows + a 3-row group + a null-key row, nth n in {0,3,-1,-4,32767,32768,65535,65536,S-1,S,-S,-S-1,...}, head/tail n in {2,32767,32768,S-1,S,S+1}; 2 cases of 400 rows with a sorted index of repeated labels; seeded random cases up to 40 rows",
-         "thorough": "as quick with (A) m<=7 (m<=6 for the two other variants), (B)(C) m<=5, (D) m<=6, random cases up to 200 rows"}
+         "thorough": "as quick with (A) m<=7 (m<=6 for the two other variants), (B)(C) m<=5, (D) m<=6 (every mask m<=4), random cases up to 200 rows"}
 RULE = "a case = (keys, key kind, value kind, container, index kind, sort) run with every (op, n) of its family, or (codes, mask, code dtype) for the kernels, or (size, op, n, index kind) for the boundary cases; distinct = distinct canonical JSON; non-trivial = two or more labels, or a null key, or more than one row in a group"
 ASSUMPTIONS = ["pandas DataFrame construction / iloc / set_index / sort_index / Index.__getitem__ behave as documented", "numpy fancy indexing",
                "values are aligned with the keys (same length; C18 covers misaligned inputs)", "negative n for head/tail and keep_input_index=False are outside the statement (weak checks only, see module docstring)",
@@ -205,14 +205,14 @@ def _stream_c(tier):
             for sort in (True, False):
                 for cont, ikind in (("series", "perm"), ("array", "none")):
                     if m == 0 and kkind in ("cat", "two"): continue
-                    for keys in itertools.product([None, 0, 1], repeat=m): yield _base(keys, kkind=kkind, cont=cont, ikind=ikind, sort=sort, ns="small", kii_false=True)
+                    for keys in itertools.product([None, 0, 1], repeat=m): yield _base(keys, kkind=kkind, cont=cont, ikind=ikind, sort=sort, ns="small", kii_false=(cont == "series"))
 
 
 def _stream_d(tier):
     for m in range(0, (6 if tier == "thorough" else 5) + 1):
         for cdt in ("int64", "int32"):
             for codes in itertools.product([-1, 0, 1], repeat=m):
-                masks = [None] + ([list(x) for x in itertools.product([False, True], repeat=m)] if m <= 4 else [[i % 3 != 1 for i in range(m)], [i % 2 == 0 for i in range(m)]])
+                masks = [None] + ([list(x) for x in itertools.product([False, True], repeat=m)] if m <= (4 if tier == "thorough" else 3) else [[i % 3 != 1 for i in range(m)], [i % 2 == 0 for i in range(m)], [i % 4 != 0 for i in range(m)]])
                 for mask in masks: yield {"entry": "kernel", "codes": list(codes), "mask": mask, "code_dtype": cdt}
 
 
